@@ -127,10 +127,11 @@ func (u unsupported) Error() string { return fmt.Sprintf("%s: %s", u.pos, u.msg)
 // ---------------------------------------------------------------- unit
 
 type fnInfo struct {
-	name    string // Lean name inside the unit's namespace
-	partial bool   // may panic: result is `Option …`
-	mutPtrs []int  // indexes (into params incl. receiver at 0) of pointer parameters written through
-	nres    int    // number of results kept (error results that are always nil are dropped)
+	name    string   // Lean name inside the unit's namespace
+	partial bool     // may panic: result is `Option …`
+	mutPtrs []int    // indexes (into params incl. receiver at 0) of pointer parameters written through
+	nres    int      // number of results kept (error results that are always nil are dropped)
+	hidden  []string // Lean types of the hidden slice tails the function takes as trailing parameters (notes/go2lean.md "Capacity")
 }
 
 type unitCtx struct {
@@ -358,6 +359,11 @@ type fnCtx struct {
 	flats   map[string]*flatVar   // outer variables / field paths, by Go source text
 	hasRet  bool
 	retType string
+	// capacity (notes/go2lean.md "Capacity"): hidden tails of slices, as extra parameters
+	hidden     []string          // "name : type" of the hidden parameters, in order of first use
+	hiddenType []string          // their Lean types
+	tails      map[string]string // slice operand (source text) → the hidden parameter that is its tail NOW
+	params     []types.Object    // the parameters of the function (receiver first)
 }
 
 func (c *fnCtx) fail(n ast.Node, f string, a ...any) { c.u.fail(n, f, a...) }
@@ -927,6 +933,51 @@ func (c *fnCtx) convert(n ast.Node, to, from types.Type, a string) string {
 	}
 }
 
+// natOf: an integer expression as a natural number (a negative value is a panic where Go panics on it: slice bounds, make)
+func (c *fnCtx) natOf(e ast.Expr) string {
+	s := c.expr(e)
+	_, signed, ok := intKind(c.info.TypeOf(e))
+	if !ok {
+		c.fail(e, "length of type %s", c.info.TypeOf(e))
+	}
+	if cv := c.info.Types[e].Value; cv != nil && !strings.HasPrefix(cv.ExactString(), "-") {
+		return cv.ExactString()
+	}
+	if signed {
+		c.part()
+		return fmt.Sprintf("(← Go.natOfInt %s)", s)
+	}
+	return s
+}
+
+// newHidden: a hidden parameter (the tail of a slice between its length and its capacity) of the function being translated
+func (c *fnCtx) newHidden(n ast.Node, base, leanType string) string {
+	if c.block {
+		c.fail(n, "the capacity of a slice inside a block/cond item (only whole functions take hidden tails)")
+	}
+	if c.loop > 0 {
+		c.fail(n, "the capacity of a slice inside a loop (every iteration would need a hidden tail of its own)")
+	}
+	name := c.fresh(base)
+	c.hidden = append(c.hidden, fmt.Sprintf("(%s : %s)", name, leanType))
+	c.hiddenType = append(c.hiddenType, leanType)
+	return name
+}
+
+// tailFor: the hidden tail of the slice operand e as it is now (same operand text, nothing assigned since: same tail)
+func (c *fnCtx) tailFor(e ast.Expr) string {
+	key := exprText(c.u.l.fset, unparen(e))
+	if t, ok := c.tails[key]; ok {
+		return t
+	}
+	if c.tails == nil {
+		c.tails = map[string]string{}
+	}
+	t := c.newHidden(e, "tail", c.u.leanType(e, c.info.TypeOf(e)))
+	c.tails[key] = t
+	return t
+}
+
 // callee of a call expression within the package being translated: (function object, receiver expression or nil)
 func (c *fnCtx) callee(x *ast.CallExpr) (*types.Func, ast.Expr) {
 	switch f := unparen(x.Fun).(type) {
@@ -981,6 +1032,29 @@ func (c *fnCtx) call(x *ast.CallExpr) string {
 				return "(" + c.expr(x.Args[0]) + " ++ [" + strings.Join(items, ", ") + "])"
 			case "panic":
 				c.fail(x, "panic(...) as an expression")
+			case "make":
+				// make([]T, n) / make([]T, n, m): n zero values. A capacity beyond the length is not part of the slice value
+				// (whoever looks at it later takes the hidden tail as a parameter: "Capacity" in notes/go2lean.md)
+				st, ok := c.info.TypeOf(x).Underlying().(*types.Slice)
+				if !ok || len(x.Args) < 2 || len(x.Args) > 3 {
+					c.fail(x, "make of type %s (only make([]T, n) and make([]T, n, m) are in the subset)", c.info.TypeOf(x))
+				}
+				zero := c.u.zero(x, st.Elem())
+				n := c.natOf(x.Args[1])
+				if len(x.Args) == 2 {
+					return fmt.Sprintf("(List.replicate %s %s)", n, zero)
+				}
+				m := c.natOf(x.Args[2])
+				c.part()
+				return fmt.Sprintf("(← Go.make %s %s %s)", n, m, zero)
+			case "cap":
+				if _, ok := c.info.TypeOf(x.Args[0]).Underlying().(*types.Slice); !ok {
+					c.fail(x, "cap of type %s", c.info.TypeOf(x.Args[0]))
+				}
+				tail := c.tailFor(x.Args[0])
+				return fmt.Sprintf("(Go.capOf %s %s)", c.expr(x.Args[0]), tail)
+			case "copy":
+				c.fail(x, "copy(...) as an expression (its result is used); only the statement `copy(dst, src)` is in the subset")
 			}
 			c.fail(x, "builtin %s is outside the subset", id.Name)
 		}
@@ -1018,6 +1092,14 @@ func (c *fnCtx) callText(x *ast.CallExpr, fn *types.Func, fi *fnInfo, recv ast.E
 	s := fi.name
 	for _, a := range args {
 		s += " " + a
+	}
+	// the callee looks at the capacity of slices: this function takes the hidden tails as parameters of its own and passes them on
+	// (one set per call site; inside a loop every iteration would need its own: refused)
+	for _, ht := range fi.hidden {
+		if c.loop > 0 {
+			c.fail(x, "call of %s, which depends on the capacity of a slice, inside a loop", fn.Name())
+		}
+		s += " " + c.newHidden(x, fn.Name()+"_tail", ht)
 	}
 	if fi.partial {
 		c.part()
